@@ -29,11 +29,11 @@ def strs(s):
 
 def extract(g, X):
     cl = X.cl
-    backend = X.strip_comments(X.read("pdf/src/backend.rs"))
-    xref = X.strip_comments(X.read("pdf/src/xref.rs"))
-    pxr = X.strip_comments(X.read("pdf/src/parser/parse_xref.rs"))
-    lexer = X.strip_comments(X.read("pdf/src/parser/lexer/mod.rs"))
-    objmod = X.strip_comments(X.read("pdf/src/object/mod.rs"))
+    backend = X.source("pdf/src/backend.rs")
+    xref = X.source("pdf/src/xref.rs")
+    pxr = X.source("pdf/src/parser/parse_xref.rs")
+    lexer = X.source("pdf/src/parser/lexer/mod.rs")
+    objmod = X.source("pdf/src/object/mod.rs")
 
     def alias_bits(name):
         if name in BITS:
@@ -52,7 +52,10 @@ def extract(g, X):
         h = X.byte_string("HEADER", b, backend)
         # the search window: min(N, self.len()) in any spelling, used (directly or through a local) as the end of the read
         (w,) = [cap for _, cap in X.min_consts(b, r"self\.len\(\)")]
-        if not re.search(r"\.windows\(\s*HEADER\.len\(\)\s*\)\s*\.position\(\s*\|(\w+)\|\s*\1\s*==\s*HEADER\s*\)", b):
+        # the marker is searched with windows(<marker>.len()).position(|w| w == <marker>) — the marker named or written out
+        H = r'(HEADER|b"(?:\\.|[^"\\])*"|&?\[[^\]]*\])'
+        ms = re.search(r"\.windows\(\s*" + H + r"\.len\(\)\s*\)\s*\.position\(\s*\|(\w+)\|\s*\2\s*==\s*" + H + r"\s*\)", b)
+        if not ms or X.byte_string(ms.group(1), b, backend) != h or X.byte_string(ms.group(3), b, backend) != h:
             raise ValueError("search is no longer windows().position(== HEADER)")
         return cl(h), str(w)
     g.attempt([("xr_header", "list N"), ("xr_header_window", "N")], "backend.rs:locate_start_offset", header)
